@@ -460,3 +460,68 @@ func zzH_C11_sgr() {
 		zzv.Assert("no-hyperlink-from-nowhere", got.url == nil && got.lbg == -1)
 	}
 }
+
+func init() {
+	zzHarnesses["zzH_C11_color"] = zzH_C11_color
+}
+
+// H11.color: grammar-generated interleavings of text and well-formed sequences: every character
+// carries the colour/attributes a terminal would show, and the state carried to the next line is
+// the terminal's state at the end of this one.
+func zzH_C11_color() {
+	var prev *ansiState
+	cur := zzSGR{-1, -1, 0}
+	if zzv.Bool() {
+		prev = &ansiState{fg: 2, bg: -1, attr: 0, lbg: -1}
+		cur = zzSGR{2, -1, 0}
+	}
+	line := []byte{}
+	var want []zzSGR // per character
+	n := zzv.Choose(0, zzv.CfgInt("items"))
+	for i := 0; i < n; i++ {
+		switch zzv.Choose(0, 5) {
+		case 0:
+			line = append(line, 'x')
+			want = append(want, cur)
+		case 1:
+			line = append(line, "\x1b[31m"...)
+			cur = zzRefSGR(cur, []int{31})
+		case 2:
+			line = append(line, "\x1b[1;44m"...)
+			cur = zzRefSGR(cur, []int{1, 44})
+		case 3:
+			line = append(line, "\x1b[m"...)
+			cur = zzRefSGR(cur, nil)
+		case 4:
+			line = append(line, "\x1b[K"...) // erase in line: no effect on colours
+		case 5:
+			line = append(line, "\x1b[39m"...)
+			cur = zzRefSGR(cur, []int{39})
+		}
+	}
+	out, offs, next := extractColor(string(line), prev, nil)
+	zzv.Reach("called")
+	zzv.Observe("outlen", len(out))
+	zzv.Assert("text-kept", len(out) == len(want))
+	ok := true
+	for i := range want {
+		// the span covering character i, if any
+		got := zzSGR{-1, -1, 0}
+		if offs != nil {
+			for _, o := range *offs {
+				if int(o.offset[0]) <= i && i < int(o.offset[1]) {
+					got = zzSGR{int32(o.color.fg), int32(o.color.bg), zzAttrBit(o.color.attr)}
+				}
+			}
+		}
+		if got != want[i] {
+			ok = false
+		}
+	}
+	zzv.Assert("colours-per-character", ok)
+	carried := zzSGR{-1, -1, 0}
+	if next != nil {
+		carried = zzSGR{int32(next.fg), int32(next.bg), zzAttrBit(next.attr)}
+	}
+	zzv.Assert("state-carried-to-next-line", carried == cur)
+}
